@@ -32,6 +32,37 @@ func Glob(pat, s string) bool {
 	return strings.HasSuffix(s, last)
 }
 
+// MatchCond matches a canonical condition against a glob; for an equality the
+// operand order of the pattern does not matter.
+func MatchCond(pat, s string) bool {
+	if Glob(pat, s) {
+		return true
+	}
+	if sw := swapEq(pat); sw != "" && Glob(sw, s) {
+		return true
+	}
+	return false
+}
+
+func swapEq(pat string) string {
+	if !strings.HasPrefix(pat, "(") || !strings.HasSuffix(pat, ")") {
+		return ""
+	}
+	depth := 0
+	for i := 0; i < len(pat)-4; i++ {
+		switch pat[i] {
+		case '(', '{', '[':
+			depth++
+		case ')', '}', ']':
+			depth--
+		}
+		if depth == 1 && strings.HasPrefix(pat[i:], " == ") {
+			return "(" + pat[i+4:len(pat)-1] + " == " + pat[1:i] + ")"
+		}
+	}
+	return ""
+}
+
 // top-level (non-closure) ancestor
 func Top(fn *ssa.Function) *ssa.Function {
 	for fn.Parent() != nil {
